@@ -5,7 +5,7 @@ VERIF = os.path.dirname(os.path.dirname(os.path.abspath(__file__)))
 sys.path.insert(0, VERIF)
 from sa import alpha, names, helpers
 root = sys.argv[1] if len(sys.argv) > 1 else "/repo/discopy"
-table, cmps, loops, exits, meths, ifs, nparams, negs, rebinds, lifs, iftests, scomps = {}, {}, {}, {}, {}, {}, {}, {}, {}, {}, {}, {}
+table, cmps, loops, exits, meths, ifs, nparams, negs, rebinds, lifs, iftests, scomps, fcalls = {}, {}, {}, {}, {}, {}, {}, {}, {}, {}, {}, {}, {}
 for dp, dn, fns in os.walk(root):
     dn[:] = [d for d in dn if d != "__pycache__"]
     for f in sorted(fns):
@@ -28,6 +28,7 @@ for dp, dn, fns in os.walk(root):
             lifs[name] = helpers.loop_ifelse_of(ast.parse(open(p).read()))
             iftests[name] = helpers.if_tests_of(ast.parse(open(p).read()))
             scomps[name] = helpers.star_comps_of(ast.parse(open(p).read()))
+            fcalls[name] = helpers.fold_calls_of(ast.parse(open(p).read()))
             nparams[name] = helpers.nested_params_of(name, ast.parse(open(p).read()))
             lp = alpha.loop_table_of(ast.parse(open(p).read()))
             if lp:
@@ -37,5 +38,5 @@ json.dump(cmps, open(alpha.CMP_TABLE, "w"), indent=0, sort_keys=True)
 json.dump(loops, open(alpha.LOOP_TABLE, "w"), indent=0, sort_keys=True)
 json.dump(exits, open(names.EXITS_TABLE, "w"), indent=0, sort_keys=True)
 json.dump(meths, open(names.METHODS_TABLE, "w"), indent=0, sort_keys=True)
-json.dump({"ifs": ifs, "nested_params": nparams, "neg_guards": negs, "param_rebinds": rebinds, "loop_ifelse": lifs, "if_tests": iftests, "star_comps": scomps}, open(helpers.IFS_TABLE, "w"), indent=0, sort_keys=True)
+json.dump({"ifs": ifs, "nested_params": nparams, "neg_guards": negs, "param_rebinds": rebinds, "loop_ifelse": lifs, "if_tests": iftests, "star_comps": scomps, "fold_calls": fcalls}, open(helpers.IFS_TABLE, "w"), indent=0, sort_keys=True)
 print("%d modules, %d functions with locals" % (len(table), sum(len(v) for v in table.values())))
